@@ -68,6 +68,30 @@ def oracle(ctx, seeds=None):
                 bad('zone2', "second zone not uniform")
             if whole and nc1 > 0 and nc2 > 0 and abs(d[-1] / d[0] - md['ratio']) > 1e-10 * md['ratio']:
                 bad('ratio', "zone size ratio %r, requested %r" % (d[-1] / d[0], md['ratio']))
+    # ---- refined meshes: every whole-number zone proportion with small integer (or half-integer) proportions
+    step = 1 if ctx.tier == 'thorough' else 3
+    cnt = 0
+    for a2 in range(1, 25):
+        for b2 in range(1, 25):
+            a_, b_ = a2 / 2.0, b2 / 2.0
+            if a2 % 2 == 0 and b2 % 2 == 0:
+                a_, b_ = int(a_), int(b_)
+            for m in range(1 + (a2 * 7 + b2) % step, 400 // (a2 + b2) + 1, step):
+                n = m * (a2 + b2)            # n * a / (a + b) = m * a2 is a whole number
+                if n > 220:
+                    continue
+                ratio = [2.0, 0.5, 3.0][(a2 + b2 + m) % 3]
+                cnt += 1
+                ok, msh = impl.guarded(impl.mesh.refinedmesh, ncell=n, length=1.0, ratio=ratio, nratioa=a_, nratiob=b_)
+                if not ok:
+                    res.fail('refined:raised', msh, dict(n=n, a=a_, b=b_)); continue
+                d = np.diff(np.asarray(msh.xf, dtype=float))
+                nc1 = m * a2
+                z1 = int(np.sum(np.abs(d - d[0]) <= 1e-9 * d[0]))
+                if len(d) != n or abs(d[-1] / d[0] - ratio) > 1e-9 * ratio or z1 != nc1 or abs(np.sum(d) - 1.0) > 1e-12:
+                    res.fail('refined:whole-proportion', "refinedmesh(ncell=%d, ratio=%r, nratioa=%r, nratiob=%r): %d cells of the first size (expected %d), size ratio %r, total length %r" %
+                             (n, ratio, a_, b_, z1, nc1, float(d[-1] / d[0]), float(np.sum(d))), dict(n=n, ratio=ratio, a=a_, b=b_))
+    res.count('refined-whole-proportions', cnt)
     # ---- 2D meshes
     for i in range(ctx.n(80, 1500)):
         nx, ny = int(rng.integers(1, 9)), int(rng.integers(1, 9)); lx, ly = float(rng.uniform(0.3, 4)), float(rng.uniform(0.3, 4))
